@@ -45,6 +45,9 @@ def to_sympy(e, cache, syms):
                 r = ch[0] ** ch[1]
             else:
                 raise NoCAS("non-integer power")
+        elif k == z3.Z3_OP_UNINTERPRETED and e.decl().name() in ("sqrt", "exp", "cos", "sin") and len(ch) == 1:
+            # the uninterpreted symbol stands for this function: its exact algebraic laws may be used by the CAS (never to refute)
+            r = getattr(sympy, e.decl().name())(ch[0])
         elif k == z3.Z3_OP_UNINTERPRETED:
             name = e.decl().name() + "/%d" % len(ch)
             if name not in syms:
@@ -69,8 +72,12 @@ def is_zero(e, max_size=60000):
         if len(e.sexpr()) > max_size:
             return None
         s = to_sympy(e, {}, {})
-        num, den = sympy.fraction(sympy.together(s))
-        num = sympy.expand(num)
+        # cheap attempt first: deep expansion (also inside the arguments of uninterpreted functions) often cancels term by term
+        ex = sympy.expand(s, deep=True)
+        if ex == 0:
+            return True
+        num, den = sympy.fraction(sympy.together(ex))
+        num = sympy.expand(num, deep=True)
         return True if num == 0 else None
     except NoCAS:
         return None
